@@ -620,6 +620,12 @@ def _final_attrs(effects):
                 for t, v in zip(s.targets[0].elts, vals):
                     if isinstance(t, (ast.Name, ast.Attribute)):
                         env[norm(t)] = v
+        elif isinstance(s, ast.For):
+            # for t in S: X.append(E) on an empty X  ==  X = [E for t in S]
+            from ..ladder import append_loop_as_comprehension
+            comp = append_loop_as_comprehension(s, {k: v for k, v in env.items() if '.' not in k})
+            if comp is not None:
+                env[comp[0]] = comp[1]
     return {k: v for k, v in env.items() if k.startswith('self.')}
 
 
